@@ -3,7 +3,6 @@
 cd "$(dirname "$0")" || exit 1
 export GOFLAGS=-mod=mod GOPROXY=off GOSUMDB=off GOTOOLCHAIN=local
 mkdir -p bin .work evidence
-cp /repo/go.sum go.sum.repo 2>/dev/null
 go build -o bin/vcheck ./cmd/vcheck || exit 1
 go build -o bin/vinstr ./cmd/vinstr || exit 1
 go build ./cmd/... ./rt/... ./internal/report/... ./internal/explore/... || exit 1
